@@ -32,15 +32,17 @@ class AssemblyManager(object):
     def assemble(self):
         modmap = self._generate_modules_map()
 
-        for elem in self.elements:
-            self._deref_citations(elem.record)
+        try:
+            for elem in self.elements:
+                self._deref_citations(elem.record)
 
-        assembly = self._generate_assembly(modmap)
+            assembly = self._generate_assembly(modmap)
 
-        self._annotate_assembly(assembly)
-        self._ref_citations(assembly)
-        for elem in self.elements:
-            self._ref_citations(elem.record)
+            self._annotate_assembly(assembly)
+            self._ref_citations(assembly)
+        finally:
+            for elem in self.elements:
+                self._ref_citations(elem.record)
 
         return assembly
 
@@ -88,10 +90,12 @@ class AssemblyManager(object):
         references = record.annotations.setdefault("references", [])
         for feature in record.features:
             for i, ref in enumerate(feature.qualifiers.get("citation", [])):
+                if isinstance(ref, six.string_types):
+                    continue  # still (or already) in index form
                 if ref not in references:
                     references.append(ref)
-                ref_index = references.find(ref) + 1
-                feature.qualifiers["citation"][i] = "{}".format(ref_index)
+                ref_index = references.index(ref) + 1
+                feature.qualifiers["citation"][i] = "[{}]".format(ref_index)
 
     def _annotate_assembly(self, assembly):
         assembly.id = self.id
